@@ -1,7 +1,389 @@
 package checks
 
-import "verifharness/fw"
+import (
+	"crypto/md5"
+	"crypto/sha1"
+	"crypto/sha256"
+	"encoding/hex"
+	"fmt"
+	"math"
+	"sort"
+	"strings"
 
-func c06FuncUnits(tier string) []fw.Unit { return nil }
+	"verifharness/fw"
+	"verifharness/ref"
 
-func c06RunFuncs(u fw.Unit) fw.Result { return fw.Result{} }
+	"github.com/rulego/streamsql/functions"
+	"github.com/rulego/streamsql/verifrt/sched"
+)
+
+// C06 part 2: built-in scalar functions — totality, route agreement, documented values.
+
+var c06Domain = []struct {
+	Name string
+	V    any
+}{
+	{"NULL", nil}, {"''", ""}, {"'abc'", "abc"}, {"'12'", "12"}, {"-1", -1}, {"0", 0}, {"1.5", 1.5}, {"1e20", 1e20},
+	{"true", true}, {"[]", []any{}}, {"[1,2]", []any{1, 2}}, {"{k:1}", map[string]any{"k": 1}},
+}
+
+var c06Excluded = map[string]string{
+	"rand": "non-deterministic", "expr": "evaluates text against the row", "unnest": "row-expanding, excluded by C05/C06 scope",
+	"convert_tz": "date/time", "to_seconds": "date/time", "case_when": "variadic condition list (covered by CASE)", "format": "locale/verb dependent",
+}
+
+func c06ScalarFuncs() []functions.Function {
+	var out []functions.Function
+	for name, f := range functions.ListAll() {
+		switch f.GetType() {
+		case functions.TypeMath, functions.TypeString, functions.TypeConversion:
+			if _, skip := c06Excluded[name]; !skip {
+				out = append(out, f)
+			}
+		}
+	}
+	sort.Slice(out, func(i, j int) bool { return out[i].GetName() < out[j].GetName() })
+	return out
+}
+
+// reference values for in-domain arguments (independent stdlib one-liners); ok=false = no claim
+func c06RefValue(name string, args []any) (any, bool) {
+	n := func(i int) (float64, bool) {
+		if i >= len(args) {
+			return 0, false
+		}
+		return ref.ToNum(args[i])
+	}
+	s := func(i int) (string, bool) {
+		if i >= len(args) {
+			return "", false
+		}
+		v, ok := args[i].(string)
+		return v, ok
+	}
+	switch name {
+	case "abs", "ceil", "ceiling", "floor", "sqrt", "exp", "sign", "sin", "cos", "ln", "log10", "log2", "round":
+		x, ok := n(0)
+		if !ok || len(args) != 1 {
+			return nil, false
+		}
+		switch name {
+		case "abs":
+			return math.Abs(x), true
+		case "ceil", "ceiling":
+			return math.Ceil(x), true
+		case "floor":
+			return math.Floor(x), true
+		case "sqrt":
+			if x < 0 {
+				return nil, false
+			}
+			return math.Sqrt(x), true
+		case "exp":
+			if r := math.Exp(x); !math.IsInf(r, 0) {
+				return r, true
+			}
+			return nil, false // overflow: outside the function's domain (error or NULL allowed)
+		case "sin":
+			return math.Sin(x), true
+		case "cos":
+			return math.Cos(x), true
+		case "sign":
+			switch {
+			case x > 0:
+				return 1.0, true
+			case x < 0:
+				return -1.0, true
+			}
+			return 0.0, true
+		case "ln":
+			if x <= 0 {
+				return nil, false
+			}
+			return math.Log(x), true
+		case "log10":
+			if x <= 0 {
+				return nil, false
+			}
+			return math.Log10(x), true
+		case "log2":
+			if x <= 0 {
+				return nil, false
+			}
+			return math.Log2(x), true
+		case "round":
+			if x == 1.5 {
+				return nil, false // rounding mode of .5 not documented
+			}
+			return math.Round(x), true
+		}
+	case "pow", "power", "mod", "atan2":
+		x, ok1 := n(0)
+		y, ok2 := n(1)
+		if !ok1 || !ok2 {
+			return nil, false
+		}
+		switch name {
+		case "pow", "power":
+			r := math.Pow(x, y)
+			if math.IsNaN(r) || math.IsInf(r, 0) {
+				return nil, false
+			}
+			return r, true
+		case "mod":
+			if y == 0 {
+				return nil, false
+			}
+			return math.Mod(x, y), true
+		case "atan2":
+			return math.Atan2(x, y), true
+		}
+	case "upper", "lower", "trim", "ltrim", "rtrim", "length", "len", "md5", "sha1", "sha256":
+		x, ok := s(0)
+		if !ok || len(args) != 1 {
+			return nil, false
+		}
+		switch name {
+		case "upper":
+			return strings.ToUpper(x), true
+		case "lower":
+			return strings.ToLower(x), true
+		case "trim":
+			return strings.TrimSpace(x), true
+		case "ltrim":
+			return strings.TrimLeft(x, " \t\n\r"), true
+		case "rtrim":
+			return strings.TrimRight(x, " \t\n\r"), true
+		case "length", "len":
+			return float64(len([]rune(x))), true
+		case "md5":
+			h := md5.Sum([]byte(x))
+			return hex.EncodeToString(h[:]), true
+		case "sha1":
+			h := sha1.Sum([]byte(x))
+			return hex.EncodeToString(h[:]), true
+		case "sha256":
+			h := sha256.Sum256([]byte(x))
+			return hex.EncodeToString(h[:]), true
+		}
+	case "startswith", "endswith", "indexof":
+		x, ok1 := s(0)
+		y, ok2 := s(1)
+		if !ok1 || !ok2 {
+			return nil, false
+		}
+		switch name {
+		case "startswith":
+			return strings.HasPrefix(x, y), true
+		case "endswith":
+			return strings.HasSuffix(x, y), true
+		case "indexof":
+			return float64(strings.Index(x, y)), true
+		}
+	case "concat":
+		var sb strings.Builder
+		for i := range args {
+			x, ok := s(i)
+			if !ok {
+				return nil, false
+			}
+			sb.WriteString(x)
+		}
+		return sb.String(), true
+	case "replace":
+		x, ok1 := s(0)
+		y, ok2 := s(1)
+		z, ok3 := s(2)
+		if !ok1 || !ok2 || !ok3 || y == "" {
+			return nil, false
+		}
+		return strings.ReplaceAll(x, y, z), true
+	case "coalesce":
+		for _, a := range args {
+			if a != nil {
+				return a, true
+			}
+		}
+		return nil, true
+	case "if_null":
+		if args[0] == nil {
+			return args[1], true
+		}
+		return args[0], true
+	case "is_null":
+		return args[0] == nil, true
+	case "is_not_null":
+		return args[0] != nil, true
+	case "is_string":
+		_, ok := args[0].(string)
+		return ok, true
+	case "is_bool":
+		_, ok := args[0].(bool)
+		return ok, true
+	case "is_array":
+		_, ok := args[0].([]any)
+		return ok, true
+	case "is_object":
+		_, ok := args[0].(map[string]any)
+		return ok, true
+	case "array_length":
+		if a, ok := args[0].([]any); ok {
+			return float64(len(a)), true
+		}
+	case "greatest", "least":
+		best := 0.0
+		for i := range args {
+			x, ok := n(i)
+			if !ok {
+				return nil, false
+			}
+			if i == 0 || (name == "greatest" && x > best) || (name == "least" && x < best) {
+				best = x
+			}
+		}
+		return best, true
+	}
+	return nil, false
+}
+
+func c06FuncUnits(tier string) []fw.Unit {
+	var us []fw.Unit
+	for s := 0; s < 16; s++ {
+		us = append(us, fw.Unit{Check: "C06", Kind: "funcs", Tier: tier, Spec: fw.Spec(enumSpec{Shard: s, Shards: 16})})
+	}
+	return us
+}
+
+func c06ArgTuples(arity int) [][]int {
+	var out [][]int
+	sequences(arity, len(c06Domain), func(ix []int) { out = append(out, append([]int(nil), ix...)) })
+	return out
+}
+
+func c06SameValue(a, b any) bool {
+	if a == nil || b == nil {
+		return a == nil && b == nil
+	}
+	if fa, ok := num(a); ok {
+		fb, ok2 := num(b)
+		if !ok2 {
+			return false
+		}
+		if math.IsNaN(fa) && math.IsNaN(fb) {
+			return true
+		}
+		return ref.Close(fa, fb)
+	}
+	return js(a) == js(b)
+}
+
+func c06RunFuncs(u fw.Unit) fw.Result {
+	sp := parseEnum(u)
+	a := newAcc("C06", "functions")
+	funcs := c06ScalarFuncs()
+	for fi, f := range funcs {
+		if fi%sp.Shards != sp.Shard {
+			continue
+		}
+		name := f.GetName()
+		minA, maxA := f.GetMinArgs(), f.GetMaxArgs()
+		if maxA < 0 || maxA > 3 {
+			maxA = minA
+			if maxA < 2 {
+				maxA = 2
+			}
+		}
+		if minA < 1 {
+			minA = 1
+		}
+		for arity := minA; arity <= maxA && arity <= 3; arity++ {
+			if arity == 3 && u.Tier == "quick" && maxA > minA {
+				continue
+			}
+			tuples := c06ArgTuples(arity)
+			cols := []string{"a1", "a2", "a3"}[:arity]
+			sql := fmt.Sprintf("SELECT %s(%s) AS r FROM stream", name, strings.Join(cols, ", "))
+			var rows []Row
+			for _, t := range tuples {
+				row := Row{}
+				for i, x := range t {
+					row[cols[i]] = copyVal(c06Domain[x].V)
+				}
+				rows = append(rows, row)
+			}
+			res, execErr, st, pv := syncEval(sql, rows)
+			cs0 := map[string]any{"sql": sql}
+			if st != sched.StatusOK {
+				a.fail("C06|func|"+name+"|abort", st.String()+" "+firstLine(pv), cs0, nil, nil)
+				continue
+			}
+			if execErr != "" {
+				a.fail("C06|func|"+name+"|rejected", "SELECT with the function rejected: "+execErr, cs0, nil, nil)
+				continue
+			}
+			for ti, t := range tuples {
+				a.r.Evaluations++
+				a.r.States++
+				a.r.Transitions += 2
+				args := make([]any, arity)
+				var desc []string
+				for i, x := range t {
+					args[i] = copyVal(c06Domain[x].V)
+					desc = append(desc, c06Domain[x].Name)
+				}
+				argDesc := strings.Join(desc, ", ")
+				// route 1: direct Execute
+				var dv any
+				var derr error
+				var dpanic string
+				func() {
+					defer func() {
+						if p := recover(); p != nil {
+							dpanic = fmt.Sprint(p)
+						}
+					}()
+					if derr = f.Validate(args); derr == nil {
+						dv, derr = f.Execute(&functions.FunctionContext{Data: map[string]any{}}, args)
+					}
+				}()
+				cs := map[string]any{"function": name, "args": argDesc}
+				if dpanic != "" {
+					a.fail("C06|func|"+name+"|panic-direct", fmt.Sprintf("%s(%s) panicked: %s", name, argDesc, dpanic), cs, nil, nil)
+					continue
+				}
+				sr := res[ti]
+				if strings.HasPrefix(sr.Err, "PANIC") {
+					a.fail("C06|func|"+name+"|panic-select", fmt.Sprintf("SELECT %s(%s) panicked: %s", name, argDesc, sr.Err), cs, nil, nil)
+					continue
+				}
+				var sv any
+				if sr.Row != nil {
+					sv = sr.Row["r"]
+				}
+				// documented value for in-domain arguments
+				if want, ok := c06RefValue(name, args); ok {
+					a.r.Nontrivial++
+					if derr != nil || !c06SameValue(dv, want) {
+						a.fail("C06|func|"+name+"|value-direct", fmt.Sprintf("%s(%s) = %v (err %v), documented value %v", name, argDesc, dv, derr, want), cs, want, dv)
+					} else if !c06SameValue(sv, want) {
+						a.fail("C06|func|"+name+"|value-select", fmt.Sprintf("SELECT %s(%s) = %v, documented value %v (direct call gives %v)", name, argDesc, sv, want, dv), cs, want, sv)
+					}
+					continue
+				}
+				// route agreement: an error of the direct call must surface as NULL, a value as the same value
+				if derr != nil {
+					if sv != nil {
+						a.fail("C06|func|"+name+"|route-disagree-error", fmt.Sprintf("%s(%s): direct call fails (%v) but SELECT yields %v", name, argDesc, derr, sv), cs, nil, sv)
+					}
+				} else if !c06SameValue(dv, sv) {
+					a.fail("C06|func|"+name+"|route-disagree-value", fmt.Sprintf("%s(%s): direct call yields %v (%T), SELECT yields %v (%T)", name, argDesc, dv, dv, sv, sv), cs, dv, sv)
+				}
+				a.outcome(fmt.Sprint(name, argDesc, sv))
+			}
+		}
+		if fi == 3 {
+			a.sample(map[string]any{"function": name, "domain": len(c06Domain), "routes": []string{"functions.Get(f).Execute", "SELECT f(..) via EmitSync"}})
+		}
+	}
+	return a.result()
+}
